@@ -229,15 +229,36 @@ class Monitor:
             ap = self.rd(self.AP)
             f = self.frames
             node = f[2]
+            found = False
+            inner = False
             while node is not None:
-                if node[0][0] == target:
+                h = node[0][0]
+                if h == target:
+                    found = True
                     self.counts['loop_heads'] += 1
                     if node[0][1] != fp or node[0][2] != ap:
                         self.verdict('scope', pc, f'loop head {target} reached with (fp, ap) = '
                                                   f'({fp}, {ap}), first arrival had ({node[0][1]}, {node[0][2]})')
-                    return
+                elif target < h <= pc:
+                    inner = True
                 node = node[1]
-            self.frames = (f[0], f[1], ((target, fp, ap), f[2]), f[3], f[4])
+            recs = f[2]
+            if inner:
+                # the records of loops nested inside this one are void from here on: when they are entered
+                # again, the enclosing iteration may have allocated differently (`int b[i + 1]` before an inner loop)
+                keep = []
+                node = f[2]
+                while node is not None:
+                    if not (target < node[0][0] <= pc):
+                        keep.append(node[0])
+                    node = node[1]
+                recs = None
+                for rec in reversed(keep):
+                    recs = (rec, recs)
+            if not found:
+                recs = ((target, fp, ap), recs)
+            if recs is not f[2]:
+                self.frames = (f[0], f[1], recs, f[3], f[4])
 
     def fallthrough(self, pc):
         """Sequential advance from pc onto a function entry."""
